@@ -56,6 +56,7 @@ AGGREGATES = {
 }
 
 ANSI = re.compile(r"\x1b\[[0-9;]*m")
+WORD = re.compile(r"[A-Za-z_][A-Za-z0-9_]*")
 
 
 def build_shim(repo=None):
@@ -200,14 +201,32 @@ class Ctx:
                 listing.append(os.path.relpath(p, out_dir))
         files = {}
         agg_lines = {}
+        texts = {}
         for rel in listing:
             p = os.path.join(out_dir, rel)
             if os.path.isfile(p):
                 with open(p, "rb") as f:
                     data = f.read()
                 files[rel] = hashlib.sha1(data).hexdigest()
+                texts[rel] = data
                 if is_aggregate(backend[0], rel):
                     agg_lines[rel] = data.decode("utf-8", "replace").splitlines()
+        # library-wide *listing* files recognised by content rather than by name: a file that names (almost) every
+        # other file's stem is an index / umbrella / registration file, not "another type's file" (D3); it may gain
+        # lines that name an inserted type and nothing else (checked in compare)
+        stem_of = lambda rel: os.path.basename(rel).split(".")[0]
+        stems = set(stem_of(rel) for rel in files)
+        listing_files = []
+        if len(stems) >= 3:
+            for rel, data in texts.items():
+                if rel in agg_lines or len(data) > 2_000_000:
+                    continue
+                words = set(WORD.findall(data.decode("utf-8", "replace")))
+                others = stems - {stem_of(rel)}
+                if others and len(others & words) >= 0.9 * len(others) and len(others & words) >= 2:
+                    listing_files.append(rel)
+                    agg_lines[rel] = data.decode("utf-8", "replace").splitlines()
+        texts = None
         # diagnostics: paths and colours normalised, order irrelevant ("the *set* of diagnostics")
         # (the spelling of the entry path is an input and is echoed by some messages)
         src_dir_spelled = os.path.dirname(spell(src, amb["abs_entry"])) or "."
@@ -227,7 +246,7 @@ class Ctx:
             lo.setdefault(hashlib.sha1("\n".join(listing).encode()).hexdigest(), 0)
         # only the hashes are kept: the trees are regenerated on replay
         shutil.rmtree(out_dir, ignore_errors=True)
-        res = {"rc": r.returncode, "files": files, "agg_lines": agg_lines, "diag": diag, "out_dir": out_dir, "cmd": cmd, "cwd": cwd, "listing_len": len(listing)}
+        res = {"rc": r.returncode, "files": files, "agg_lines": agg_lines, "listing_files": listing_files, "diag": diag, "out_dir": out_dir, "cmd": cmd, "cwd": cwd, "listing_len": len(listing)}
         if r.returncode < 0 or "panicked at" in r.stderr:
             res["crashed"] = True
         self.run_cache[ck] = res
@@ -352,6 +371,13 @@ def compare(ctx, backend, before, after, oracle, edit):
                 if strip(before.get("agg_lines", {}).get(rel, [])) != strip(after.get("agg_lines", {}).get(rel, [])):
                     ctx.inc("probe_aggregate_file_changed_beyond_lines_naming_the_new_type")
                 continue
+            if rel in before.get("listing_files", []):
+                # a listing file found by content: lines naming the inserted type may come, nothing else may change
+                strip = lambda lines: [l for l in lines if new_name not in l and new_name.lower() not in l.lower()]
+                if strip(before.get("agg_lines", {}).get(rel, [])) == strip(after.get("agg_lines", {}).get(rel, [])):
+                    ctx.inc("listing_file_found_by_content_gained_lines_naming_the_new_type")
+                    continue
+                return {"what": "a library-wide listing file changed beyond the lines that name the inserted type", "file": rel, "inserted": new_name}
             return {"what": "another type's file changed when an unreferenced type was added", "file": rel, "inserted": new_name}
     return None
 
